@@ -527,7 +527,9 @@ func perViewList(fa *Flow, list ssa.Value) (bool, string) {
 				continue
 			}
 			l, r := toRoot(f.L), toRoot(f.R)
-			isElem := func(k string) bool { return strings.HasSuffix(k, "."+kTOMsg+"View") && strings.HasPrefix(k, kTCField+"[") }
+			isElem := func(k string) bool {
+				return strings.HasSuffix(k, "."+kTOMsg+"View") && strings.HasPrefix(k, kTCField+"[")
+			}
 			if (isElem(l) && r == "p1."+kTOMsg+"View") || (isElem(r) && l == "p1."+kTOMsg+"View") {
 				ok = true
 			}
